@@ -98,6 +98,9 @@ def count_nodes(ev):
 
 
 # classes reported by the reference interpreter's trigger hooks -> the finding they are the trigger of
+# classes of the reference that mean "implementation-dependent", not "deviation": the relative order of nodes of DIFFERENT documents
+# (XPath 5: document order across documents is implementation-dependent), e.g. the order in which  $nodeOfOtherDocument | path  is copied
+UNSPECIFIED_CLASSES = {'multidoc-order'}
 CLASS_FINDING = {'rtf-empty-boolean': 'F-C01-empty-rtf-boolean'}
 
 
@@ -227,6 +230,11 @@ def check(ctx, case):
     classes = set(trig.hit)
     if ref.recoveries:
         classes.add('recovery:' + ','.join(sorted(ref.recoveries)))
+    if classes & UNSPECIFIED_CLASSES:
+        # the reference itself reports that its result depends on a choice the Recommendations leave to the implementation
+        for c in sorted(classes & UNSPECIFIED_CLASSES):
+            ctx.counters['unjudged:' + c] += 1
+        return None
     # libxslt veto
     veto = None
     tmp = tempfile.mkdtemp(prefix='c01.', dir='/dev/shm')
